@@ -242,6 +242,35 @@ def r1_aliasing(ck, P):
             ck.ok(R, '%s/%s: result compared with both operands' % (u.name, op.name))
         else:
             ck.violation(R, op.name, 'aliasing guard (%s)' % _w(u), 'the result is compared only with operand %s: when it is the other operand its rectangles are overwritten while still being read' % sorted(cw), x.loc())
+        # each alias test is paired with the rectangle count of the operand it names (one rectangle lives inline in extents and needs no saving)
+        for pb in op.blocks[x.bb.id].preds if hasattr(op.blocks[x.bb.id], 'preds') else [b.id for b in op.blocks if x.bb.id in b.succ]:
+            pb = pb if isinstance(pb, int) else pb.id
+            t = op.blocks[pb].term
+            if t.op != 'br' or not t.a:
+                continue
+            c = op.v(t.a[0])
+            if c is None or c.op != 'icmp':
+                continue
+            alias = set()
+            for br, succ in op.guard_edges(pb):
+                cc = op.v(br.a[0]) if br.a else None
+                if cc is not None and cc.op == 'icmp' and cc.pred == 'eq' and br.d['succ'][0] == succ:
+                    s_ = {tuple(op.strip_casts(o)) for o in cc.a}
+                    if ('a', 0) in s_:
+                        alias |= {o[1] for o in s_ if o[0] == 'a' and o[1] != 0}
+            if c.pred == 'eq' and {tuple(op.strip_casts(o)) for o in c.a} >= {('a', 0)}:
+                continue            # the alias test itself leading straight to the store (no count conjunct)
+            if len(alias) != 1:
+                continue
+            k = next(iter(alias))
+            vs = [o for o in c.a if o[0] == 'v']
+            rts = set()
+            for o in vs:
+                rts |= {r for r in common.value_arg_roots(op, o) if r[0] == 'arg'}
+            if rts == {('arg', k)}:
+                ck.ok(R, '%s/%s: alias with operand %d paired with the rectangle count of operand %d' % (u.name, op.name, k, k))
+            else:
+                ck.violation(R, op.name, 'alias test paired with a rectangle count (%s)' % _w(u), 'the test "result is operand %d" is combined with a count taken from %s: when operand %d has several rectangles and the other has one, the result overwrites rectangles that are still being read' % (k, sorted(r[1] for r in rts) or 'no operand', k), t.loc())
         # old data freed on all exits
         phis = [y for y in op.insts() if y.op == 'phi' and y.dv == 'old_data' or (y.op == 'phi' and any(op.v(a) is not None and op.v(a).op == 'load' and op.last_field(op.path(op.v(a).a[0])) == _reg(u) + '.data' and op.root(op.path(op.v(a).a[0])) == ('arg', 0) for a in y.a) and any(a[0] == 'n' for a in y.a))]
         if not phis:
@@ -739,3 +768,87 @@ def r6_2b_extents_after_drop(ck, P):
                 ck.ok(R, '%s/%s: extents recomputed after rectangles were dropped' % (u.name, f.name))
             else:
                 ck.violation(R, f.name, 'extents after dropped rectangles (%s)' % _w(u), '%s can return after discarding rectangles without recomputing the extents of the survivors: the region is not canonical (extents too large), equal() and selfcheck fail' % f.name, t.loc())
+
+
+def r5_4_success_writes_result(ck, P):
+    """T-MPT: a region-producing function that reports success has produced its result"""
+    R = ck.rule('C05-R4', 'every path on which a region-producing function returns TRUE passes a store to its result region, a call that hands the result to a writer, or the `result is the operand` test of a copy: success is never reported with the previous contents left in place', floor=18)
+    W = param_write_summaries(P)
+    cands = []
+    for u in list(units(P)) + [P.units[n] for n in ('pixman-utils.c',) if n in P.units]:
+        for f in u.functions.values():
+            if f.internal or not f.params or not (f.exported or u.name == 'pixman-utils.c'):
+                continue
+            pt = f.params[0][1]
+            if 'pixman_region' not in pt or not pt.endswith('*'):
+                continue
+            if 0 not in W.get(f, ()):
+                continue                    # predicates and queries: they never write their first parameter
+            rets = [t for t in f.rets() if t.a]
+            if not rets or not all(f.by_id.get(t.a[0][1]).ty == 'i32' if t.a[0][0] == 'v' else True for t in rets):
+                continue
+            if f.name.endswith(('_n_rects', '_not_empty', '_selfcheck', '_contains_point', '_contains_rectangle', '_equal', '_rectangles', '_extents')):
+                continue
+            cands.append(f)
+    for f in cands:
+        ck.saw(f)
+
+        def writes_result(y):
+            if y.op == 'store' and any(r == ('arg', 0) for r in common.roots(f, y.a[1])):
+                return True
+            if y.op == 'call':
+                g = P.resolve(f, y.callee) if isinstance(y.callee, str) else None
+                for k, a in enumerate(y.a):
+                    if a[0] in ('v', 'a') and any(r == ('arg', 0) for r in common.roots(f, a)) and f.path(a)[0][0] != 'load':
+                        if g is None or k in W.get(g, ()):
+                            return True
+            return False
+
+        # success exits: ret of a constant non-zero, or a phi feeding ret with constant non-zero incomings
+        targets = []      # (block id to reach, description)
+        for t in f.rets():
+            o = t.a[0]
+            if o[0] == 'c':
+                if int(o[1]) != 0:
+                    targets.append((t.bb.id, None, t))
+                continue
+            x = f.v(o)
+            if x is not None and x.op == 'phi':
+                for a, bb in zip(x.a, x.d['bb']):
+                    if a[0] == 'c' and int(a[1]) != 0:
+                        targets.append((x.bb.id, bb, t))
+                    elif a[0] == 'v':
+                        targets.append((x.bb.id, bb, t))     # a status handed on from a callee: the callee call is the writer on that path
+            else:
+                targets.append((t.bb.id, None, t))
+        bad = None
+        for tb, via, t in targets:
+            # search a path entry -> (via ->) tb that passes no writer and no dst==operand alias edge
+            seen = set(); work = [(0, None)]
+            while work and bad is None:
+                b, prev = work.pop()
+                if (b, prev if b == tb else None) in seen:
+                    continue
+                seen.add((b, prev if b == tb else None))
+                if b == tb and (via is None or prev == via):
+                    if not any(writes_result(y) for y in f.blocks[b].insts if via is None):
+                        bad = (t, via); break
+                    continue
+                blk = f.blocks[b]
+                if any(writes_result(y) for y in blk.insts):
+                    continue
+                tt = blk.term
+                nxt = list(blk.succ)
+                if tt.op == 'br' and tt.a:
+                    c, pred, ops = f.cond(tt.a[0])
+                    if c is not None and c.op == 'icmp' and pred in ('eq', 'ne'):
+                        s_ = {tuple(f.strip_casts(o)) for o in ops}
+                        if ('a', 0) in s_ and any(o[0] == 'a' and o[1] != 0 for o in s_):
+                            alias_side = tt.d['succ'][0] if pred == 'eq' else tt.d['succ'][1]
+                            nxt = [n_ for n_ in nxt if n_ != alias_side]     # result is the operand: nothing to produce
+                for n_ in nxt:
+                    work.append((n_, b))
+        if bad:
+            ck.violation(R, f.name, 'success without producing the result', '%s can return TRUE along a path that neither stores to its result region nor hands it to a function that does: the caller is told the result is ready while the old contents are still there' % f.name, bad[0].loc())
+        else:
+            ck.ok(R, '%s: every success path produces the result' % f.name)
